@@ -816,9 +816,19 @@ def _theta_source(rep, rot, L, theta_id, mode, pm):
 
 def _sampling(rep, prog, rot, pm):
     L = Locals(rot)
-    whiles = [n for n in astu.walk(rot['body']) if n['k'] == 'While']
+    def draws_in(n):
+        return any(x['k'] == 'OpCall' and x.get('op') == '()' and x['callee']['qn'].endswith('i_random::operator()') for x in astu.walk(n))
+    # the sampling loops: innermost loops (of any form) whose body draws deviates
+    loops_ = [n for n in astu.walk(rot['body']) if n['k'] in ('While', 'For', 'Do') and draws_in(n['body'])]
+    whiles = [n for n in loops_ if not any(m is not n and m in loops_ for m in astu.walk(n['body']))]
     if len(whiles) != 2:
         raise AnalysisBroken('expected 2 sampling loops in _rotate_event_, found %d' % len(whiles))
+    for w, mode in zip(whiles, ('target', 'selection')):
+        c = astu.strip_casts(w['c']) if w.get('c') is not None else None
+        forever = c is None or (c['k'] == 'Bool' and c['v']) or astu.num_value(c) == 1
+        rep.add('SAMPLING', mode + ':only-accepted-samples-leave', where(rot, w.get('l')), 'the rejection loop has no exit but its accepting '
+                '`break`s (loop condition is constant true): a rejected direction can never be used', forever,
+                None if forever else 'the loop also ends when `%s` fails: the last rejected sample is then used' % astu.src(c))
     a, b = (_norm(w['body']) for w in whiles)
     rep.add('SAMPLING', 'siblings', where(rot, whiles[1].get('l')), 'the target-mode and selection-mode sampling loops are the '
             'same statements', a == b, None if a == b else _first_diff(a, b))
